@@ -2,6 +2,9 @@ import Lean.Data.Json
 import Glom.Model.C06
 import Glom.Spec.C06
 import Glom.Model.C01
+import Glom.Model.C06Heap
+import Glom.Spec.C06Heap
+import Glom.Py.Json
 import Glom.Generated.C06Facts
 /-
   C06 driver: replays one history of cache-relevant operations through the cache model
@@ -20,7 +23,16 @@ import Glom.Generated.C06Facts
                   "impl_star":[[type,"kg"|"it"|"none"|"log",[[op,tag]…]]…],     (a wildcard call: per visited item)
                   "vars":{"key":k,"base":[[n,v]…],"defaults":[[n,v]…],"ops":[["w",n,v]|["r",n]…],"impl_reads":[v|null…]},
                   "impl_sizes":[…]}
-               | {"op":"register","reg":r,"cls":n,"kw":[[op,tag]…]}      (no "cls": an unrelated fresh class) … ]}
+               | {"op":"register","reg":r,"cls":n,"kw":[[op,tag]…],"exact":b}      (no "cls": an unrelated fresh class) … ]}
+         a glom op may carry "arith": {"heap":[cell…],"target":Val,"spec":Sp,
+                                       "impl_out":{"ok":G}|{"err":cls},"impl_heap_after":[cell…],"impl_result_old":b}
+           heap / Val / cell: the wire format of Glom/Py/Json.lean (a bytearray is a "list" cell of class "bytearray");
+           Sp: {"lit":Val} | {"t":[[opchar,Sp]…]} | {"seq":"list"|"tuple"|"set"|"fset","xs":[Sp…]} | {"dict":[[Sp,Sp]…]}
+               | {"coalesce":[Sp…],"default":Sp|null};
+           G (a result, as far as identity shows): a scalar Val | {"r":a} a mutable object that existed before the call
+               | {"new":cls,"v":[G…]} | {"new":cls,"kv":[[G,G]…]} an object built by the call.
+         "classes" may carry "virt":[abc…] (virtual bases of the class, as Python computed them); a tag "<none>" in
+         "impl_lookups" = the lookup raised UnregisteredTarget.
 
   The handler lookups of a call on an instance of a generated class (`impl_lookups`: exact type of
   the object, op, and the tag of the handler that ran, "default" for getattr / iter) are replayed
@@ -85,7 +97,8 @@ def replayLookups (reg : TReg) : HCache Tag → List (String × String × String
   | hc, (ty, op, tag) :: rest =>
     let (h, hc') := getHandler reg.compute hc (ty, op)
     let (ag, ok, hc'') := replayLookups reg hc' rest
-    (ag && h == some tag, ok && reg.compute (ty, op) == some tag, hc'')
+    let expected : Option String := if tag == "<none>" then none else some tag
+    (ag && h == expected, ok && reg.compute (ty, op) == expected, hc'')
 
 /-- what the implementation showed of the expansion of one visited item: its exact type, how its
     children were reached as far as the result shows it ("kg" keys+get, "it" iterate, "none", or
@@ -124,6 +137,129 @@ def readsOfJson (j : Json) : List (Option String) :=
       | .str v => some v
       | _ => none)
   | _ => []
+
+
+/-! ### T arithmetic / container-building specs on the heap model -/
+
+def binOfChar : String → Option TOp
+  | "[" => some .item
+  | "+" => some (.bin .add) | "-" => some (.bin .sub) | "*" => some (.bin .mul)
+  | "#" => some (.bin .floordiv) | "/" => some (.bin .truediv) | "%" => some (.bin .mod)
+  | ":" => some (.bin .pow) | "&" => some (.bin .band) | "|" => some (.bin .bor) | "^" => some (.bin .bxor)
+  | "~" => some (.un .invert) | "_" => some (.un .neg)
+  | _ => none
+
+partial def spOfJson (j : Json) : Except String Sp := do
+  let sps (a : Array Json) : Except String Sps := do
+    let l ← a.toList.mapM spOfJson
+    return l.foldr (fun x r => Sps.cons x r) Sps.nil
+  if let .ok v := j.getObjVal? "lit" then return .lit (← valOfJson v)
+  else if let .ok (.arr a) := j.getObjVal? "t" then
+    let steps ← a.toList.mapM (fun e => match e with
+      | .arr #[.str c, arg] => (match binOfChar c with
+        | some op => do return (op, ← spOfJson arg)
+        | none => throw s!"unknown op {c}")
+      | _ => throw s!"bad step {e.compress}")
+    return .t (steps.foldr (fun x r => Steps.cons x.1 x.2 r) Steps.nil)
+  else if let .ok (.str k) := j.getObjVal? "seq" then
+    let kind ← (match k with
+      | "list" => pure SeqKind.list | "tuple" => pure SeqKind.tuple
+      | "set" => pure SeqKind.set | "fset" => pure SeqKind.fset
+      | _ => throw s!"bad seq kind {k}")
+    match j.getObjVal? "xs" with
+    | .ok (.arr a) => return .seq kind (← sps a)
+    | _ => throw "seq without xs"
+  else if let .ok (.arr a) := j.getObjVal? "dict" then
+    let es ← a.toList.mapM (fun e => match e with
+      | .arr #[k, v] => do return (← spOfJson k, ← spOfJson v)
+      | _ => throw s!"bad pair {e.compress}")
+    return .dict (es.foldr (fun x r => Pairs.cons x.1 x.2 r) Pairs.nil)
+  else if let .ok (.arr a) := j.getObjVal? "coalesce" then
+    match j.getObjVal? "default" with
+    | .ok .null | .error _ => return .coalesce (← sps a) false (.lit .none)
+    | .ok d => return .coalesce (← sps a) true (← spOfJson d)
+  else throw s!"bad Sp {j.compress}"
+
+/-- a result as far as identity shows: old objects by address, objects built by the call by structure -/
+def viewG (h : Heap) (n0 : Nat) : Nat → Val → Json
+  | 0, _ => Json.str "<deep>"
+  | fuel + 1, v =>
+    match v with
+    | .ref a =>
+      -- an old *mutable* object by its address; immutable ones (tuple, frozenset) have no observable identity
+      let immutable := match h[a]? with
+        | some (.tuple ..) => true
+        | some (.set c _) => c == "frozenset"
+        | _ => false
+      if a < n0 && !immutable then Json.mkObj [("r", a)]
+      else match h[a]? with
+        | some (.list c xs) => Json.mkObj [("new", c), ("v", Json.arr (xs.map (viewG h n0 fuel)).toArray)]
+        | some (.tuple c xs) => Json.mkObj [("new", c), ("v", Json.arr (xs.map (viewG h n0 fuel)).toArray)]
+        | some (.set c xs) => Json.mkObj [("new", c), ("v", Json.arr (xs.map (viewG h n0 fuel)).toArray)]
+        | some (.dict c es) => Json.mkObj [("new", c),
+            ("kv", Json.arr (es.map (fun e => Json.arr #[viewG h n0 fuel e.1, viewG h n0 fuel e.2])).toArray)]
+        | _ => Json.str "<dangling>"
+    | _ => valToJson v
+
+/-- sets are compared as sets; `True` / `1` (equal as members) are identified -/
+partial def normG (j : Json) : Json :=
+  match j with
+  | .arr a => .arr (a.map normG)
+  | .obj _ =>
+    match j.getObjVal? "new", j.getObjVal? "v", j.getObjVal? "kv" with
+    | .ok (.str c), .ok (.arr v), _ =>
+      let vs := v.map normG
+      if c == "set" || c == "frozenset" then
+        let key (x : Json) : String := match x.getObjVal? "b" with
+          | .ok (.bool b) => (Json.mkObj [("i", toJson (if b then (1 : Int) else 0))]).compress
+          | _ => x.compress
+        Json.mkObj [("new", c), ("v", Json.arr ((vs.map key).qsort (· < ·) |>.map Json.str))]
+      else Json.mkObj [("new", c), ("v", Json.arr vs)]
+    | .ok (.str c), _, .ok (.arr kv) => Json.mkObj [("new", c), ("kv", Json.arr (kv.map normG))]
+    | _, _, _ => j
+  | _ => j
+
+partial def hasOpaque (j : Json) : Bool :=
+  match j with
+  | .arr a => a.any hasOpaque
+  | .obj kvs => kvs.toList.any (fun (k, v) => (k == "f" && v == Json.str "?") || hasOpaque v)
+  | _ => false
+
+/-- (agree, holds, why) for one call on an arith entry -/
+def arithCase (a : Json) : Except String (Bool × Bool × String) := do
+  let heap ← heapOfJson (← a.getObjVal? "heap")
+  let tgt ← valOfJson (← a.getObjVal? "target")
+  let sp ← spOfJson (← a.getObjVal? "spec")
+  let after ← heapOfJson (← a.getObjVal? "impl_heap_after")
+  let resOld ← a.getObjValAs? Bool "impl_result_old"
+  let implOut ← a.getObjVal? "impl_out"
+  -- the property, on the implementation's observation
+  let obs : ArithObs := { heapAfter := after, resultOld := resOld }
+  let holds := checkArith heap sp obs
+  let why := if holds then "" else
+    (if after != heap then "an object that existed before the call (target / spec) was changed by evaluating a non-mutating spec"
+     else "the result of an operation that builds a new object is one of the objects that existed before the call")
+  -- the model
+  let out := evalAuto sp tgt heap
+  let modelOk := observe6 heap.length out
+  let agree : Bool := match out.1 with
+    | .error .unsupported => true
+    | .error (.glom c) => (implOut.getObjValAs? String "err").toOption == some c
+    | .error (.raised c) => (implOut.getObjValAs? String "err").toOption == some c
+    | .ok v =>
+      let g := viewG out.2 heap.length 40 v
+      if hasOpaque g then (implOut.getObjVal? "ok").isOk
+      else match implOut.getObjVal? "ok" with
+        | .ok gi => normG gi == normG g
+        | .error _ => false
+  let modelOld : Bool := match out.1 with
+    | .ok (.ref a) => modelOk.resultOld && (match out.2[a]? with
+      | some (.tuple ..) => false
+      | some (.set c _) => c != "frozenset"
+      | _ => true)
+    | _ => false
+  let agree := agree && (match out.1 with | .error .unsupported => true | _ => modelOld == resOld || !holds)
+  return (agree, holds, why)
 
 def stepOp (maxCache : Nat) (a : Acc) (j : Json) : Except String Acc := do
   let op ← j.getObjValAs? String "op"
@@ -194,7 +330,13 @@ def stepOp (maxCache : Nat) (a : Acc) (j : Json) : Except String Acc := do
         ({ a with vheaps := (key, heap') :: a.vheaps.filter (·.1 != key), agree := a.agree && reads == impl },
          impl == refVars base defaults ops)
       | .error _ => (a, true)
-    let ok := fresh && first && unch && rebuilt && freshReg && specUnch && scopeUnch && lkOk && starOk && varsOk && expected
+    -- T arithmetic / container-building specs: the heap model and `checkArith` on the implementation's observation
+    let (a, arithOk, arithWhy) ← (match j.getObjVal? "arith" with
+      | .ok aj => do
+        let (ag, ho, wy) ← arithCase aj
+        pure ({ a with agree := a.agree && ag }, ho, wy)
+      | .error _ => pure (a, true, ""))
+    let ok := fresh && first && unch && rebuilt && freshReg && specUnch && scopeUnch && lkOk && starOk && varsOk && expected && arithOk
     -- keep the model's cache in step with the texts this call parsed (observed as new cache keys)
     let newKeys : List (Bool × String) := match j.getObjVal? "impl_new_keys" with
       | .ok (.arr ks) => ks.toList.filterMap (fun e => match e with
@@ -205,7 +347,8 @@ def stepOp (maxCache : Nat) (a : Acc) (j : Json) : Except String Acc := do
     let a := { a with pc := pc' }
     let a := { a with agree := a.agree && sizesOK a j }
     let why := if !ok && a.why.isEmpty then
-        (if !unch then s!"target/spec/scope changed at op {a.nOps}"
+        (if !arithOk then s!"{arithWhy} (op {a.nOps})"
+         else if !unch then s!"target/spec/scope changed at op {a.nOps}"
          else if !specUnch then s!"an object of the spec's object graph (or a mapping handed to it) changed by being evaluated (op {a.nOps})"
          else if !scopeUnch then s!"the caller's scope mapping / path list changed (op {a.nOps})"
          else if !varsOk then s!"the reads of a spec holding Vars(...) differ from those of a fresh variable holder (op {a.nOps})"
@@ -222,7 +365,8 @@ def stepOp (maxCache : Nat) (a : Acc) (j : Json) : Except String Acc := do
     let cls := (j.getObjValAs? String "cls").toOption.getD "<unrelated>"
     let kw := pairsOfJson ((j.getObjVal? "kw").toOption.getD .null)
     -- `register`: new registrations, the memo of this registry is reset
-    return { a with regs := setAt a.regs rg ((a.regs rg).register cls kw), hcs := setAt a.hcs rg [] }
+    let exact := (j.getObjValAs? Bool "exact").toOption.getD false
+    return { a with regs := setAt a.regs rg ((a.regs rg).register cls kw exact), hcs := setAt a.hcs rg [] }
   | _ => throw s!"unknown op {op}"
 
 def run (j : Json) : Except String Json := do
@@ -242,7 +386,14 @@ def run (j : Json) : Except String Json := do
         | .ok n, .ok false => some (n, "keys")
         | _, _ => none)
     | _ => []
-  let reg0 : TReg := { mro := mro, nodefault := nodefault }
+  -- virtual bases (ABC.register / __subclasshook__ / collections.abc), as Python computed them
+  let virt : List (String × List String) := match j.getObjVal? "classes" with
+    | .ok (.arr cs) => cs.toList.filterMap (fun c =>
+        match c.getObjValAs? String "name", c.getObjVal? "virt" with
+        | .ok n, .ok (.arr m) => some (n, m.toList.filterMap (fun e => match e with | .str s => some s | _ => none))
+        | _, _ => none)
+    | _ => []
+  let reg0 : TReg := { mro := mro, nodefault := nodefault, virt := virt }
   let a ← ops.foldlM (stepOp Generated.maxCache) { regs := fun _ => reg0 }
   return Json.mkObj [("agree", a.agree), ("holds", a.holds), ("why", a.why),
     ("model", Json.mkObj [("sizes", Json.arr #[toJson (a.pc.get true).length, toJson (a.pc.get false).length]),
